@@ -109,7 +109,7 @@ def run(tier):
         dict(function='Parser::parse_file', contract='ensures adv(events) == |tokens| - 1 && leading == 0: every lexed token, trivia included, is advanced exactly once'),
     ]
     not_decided = ['which TokenKind the lexer assigns to a piece of text', 'build_tree replays the events into the green tree, and the red tree (ast.rs) derives offsets from green lengths: neither is under contract; both are EXECUTED by the replay runner on generated texts (tree text == source, lengths add up, node/token spans tile the file, every token text is the source slice at its span)',
-                   'error spans that are not made from the current token (report_error_at with a computed span) and the lexer\'s own error spans: executed by the runner only', 're-parse equality', 'termination of parse_file (progress of parse_element is assumed)']
+                   'parser error spans that are not made from the current token (report_error_at with a computed span): executed by the runner only (the lexer\'s own error spans ARE under contract)', 're-parse equality', 'termination of parse_file (progress of parse_element is assumed)']
     return vprop.run_verus_property(PROP, tier, units, runner=_runner_spec(), assumptions=assumptions, samples=samples,
                                     not_decided=not_decided, pre_undecided=pre_und,
                                     extra_cov=dict(frame_scan=dict(functions_in_impl_parser=nfun, contract_set=sorted(CONTRACT_FNS))))
